@@ -29,6 +29,7 @@ use std::task::{Context, Poll, Wake, Waker};
 pub fn dispatch(mode: &str, a: &Args) -> Option<Args> {
     Some(match mode {
         "tok_run" => tok_run(a),
+        "tok_fill" => tok_fill(a),
         "wg_run" => wg_run(a),
         _ => return None,
     })
@@ -67,6 +68,31 @@ impl AsyncWrite for Sink {
 }
 fn never_called() -> impl for<'a, 'b> FnMut(&'a mut Request<'b, IdleReader, Sink>) -> BoxFuture<'a, io::Result<ExitStatus>> {
     |_req| Box::pin(async { Ok(ExitStatus::SUCCESS) })
+}
+
+/// tok_fill <max_conns>: issue and poll get_token() one after the other on the runner and a clone alternately, keeping every
+/// token: [[how many completed at once, 0 if the next one waits / 2 if max_conns + 1 tokens were handed out]]
+fn tok_fill(a: &Args) -> Args {
+    let maxc = argn(a, 0).max(1) as usize;
+    let base = config(64, maxc).async_runner();
+    let other = base.clone();
+    let waker = Waker::from(Arc::new(Count(AtomicUsize::new(0))));
+    let mut cx = Context::from_waker(&waker);
+    let mut toks: Vec<Token> = Vec::with_capacity(maxc + 1);
+    let mut flag = 2u128;
+    for i in 0..=maxc {
+        let r = if i % 2 == 0 { &base } else { &other };
+        let fut = r.get_token();
+        futures_util::pin_mut!(fut);
+        match fut.poll(&mut cx) {
+            Poll::Ready(t) => toks.push(t),
+            Poll::Pending => {
+                flag = 0;
+                break;
+            },
+        }
+    }
+    vec![vec![toks.len() as u128, flag]]
 }
 
 fn tok_run(a: &Args) -> Args {
